@@ -691,5 +691,5 @@ MANIFEST = {
     "consistently per chromosome), ceil at float-noise distance from an integer, which allele is cn1 and how cn is split, dtypes. The "
     "monotonicity clause is evaluated for ploidy >= 2 (for ploidy 1 it contradicts the defining clauses: 3 below 0.7, ceil(2^log2) = 2 above). "
     "Not covered: thresholds off the grid, ploidy > 6, diploid-PAR genomes, filters=, VariantArrays without allele frequencies or with several records per segment (C18).",
-    "technique": "exhaustive enumeration of threshold vectors x configurations with vector-derived boundary alphabets on the real code, independent step-function model as oracle",
+    "technique": "exhaustive enumeration of threshold vectors x configurations with vector-derived boundary alphabets on the real code, independent step-function model as oracle; call / rename-in-place / call-again history on every step table",
 }
